@@ -19,6 +19,7 @@ struct Prog {
 
 fn programs() -> Vec<Prog> {
     vec![
+        Prog { name: "P0 (no program)", lines: vec![], extra: vec!["NEXT I", "RETURN", "PRINT X;S$;A(1)"] },
         Prog {
             name: "P1",
             lines: vec![
